@@ -159,6 +159,10 @@ pub fn run(run: &'static Run) {
     maps.sort_by_key(|m| m.len());
     let trees = build_trees(&dir, &table, &maps);
     run.cov("trees", maps.len());
+    // pack everything: reading loose objects is very slow for git on a loaded machine
+    let all = git::git(&dir, &["cat-file", "--batch-all-objects", "--batch-check=%(objectname)"]);
+    git::git_in(&dir, &["pack-objects", "-q", ".git/objects/pack/pack"], &all);
+    git::git(&dir, &["prune-packed", "-q"]);
     let store = std::sync::Arc::new(
         gix_odb::Store::at_opts(dir.join(".git/objects"), &mut None.into_iter(), gix_odb::store::init::Options::default())
             .unwrap_or_else(|e| vkit::machinery!("gix-odb cannot open fixture: {e}")),
@@ -168,7 +172,7 @@ pub fn run(run: &'static Run) {
     let with_sub = AtomicU64::new(0);
     run.sub_with(
         "archive",
-        Opts::default().chunk(64).watchdog(60.0),
+        Opts::default().chunk(64).watchdog(600.0),
         |emit| {
             for m in &maps {
                 // the additional entries are independent of the tree: all of them for trees with <=1 entry, none|file otherwise
